@@ -57,7 +57,7 @@ def main():
     dem = os.path.join(mutdir, 'demo.py')
     meta = json.load(open(os.path.join(mutdir, 'meta.json'))) if os.path.exists(os.path.join(mutdir, 'meta.json')) else {}
     out = {'property': pid, 'source': mutdir, 'summary': meta.get('summary'), 'needs': meta.get('needs')}
-    assert sh('git -C /repo status --porcelain').stdout.strip() == '', '/repo is dirty'
+    assert os.environ.get('SEEDED_SCRATCH') or sh('git -C /repo status --porcelain').stdout.strip() == '', '/repo is dirty'
     rc, log = demo('/repo', dem)
     out['demo_clean_rc'] = rc
     wt = '/tmp/_seed_wt_%d' % os.getpid()
@@ -74,9 +74,27 @@ def main():
             ok, missing = baseline_ok(wt)
             out['baseline_ok'] = ok
             out['baseline_missing'] = missing
+            if os.environ.get('SEEDED_SCRATCH') and ap.returncode == 0 and out['demo_clean_rc'] == 0 and rc2 != 0 and ok:
+                # first-pass evaluation against the scratch worktree (DIT_REPO), leaving /repo alone; the record of
+                # detection is made by tools_regress.py, which applies the patch to /repo itself
+                t0 = time.time()
+                r = sh('cd %s && DIT_REPO=%s ./check %s --tier %s' % (VERIF, wt, pid, tier))
+                lines = [l for l in r.stdout.splitlines() if l.startswith(('VIOLATION', 'KNOWN', pid))]
+                out.update({'confirmed': True, 'check_rc': r.returncode, 'check_s': round(time.time() - t0, 1),
+                            'check_lines': lines[-6:], 'detected': r.returncode == 1 and any(
+                                l.startswith('VIOLATION') and 'no-failing-input-found' not in l for l in lines)})
+                for l in lines:
+                    if l.startswith('VIOLATION'):
+                        try:
+                            out['first_replay'] = json.load(open(os.path.join(VERIF, l.split('replay=')[1].split()[0])))['broken'][:300]
+                        except Exception:
+                            pass
+                        break
     finally:
         sh('git -C /repo worktree remove --force %s' % wt)
-    if out.get('applies') and out['demo_clean_rc'] == 0 and out.get('demo_mutated_rc') not in (0, None) and out.get('baseline_ok'):
+    if os.environ.get('SEEDED_SCRATCH'):
+        out.setdefault('confirmed', False)
+    elif out.get('applies') and out['demo_clean_rc'] == 0 and out.get('demo_mutated_rc') not in (0, None) and out.get('baseline_ok'):
         out['confirmed'] = True
         sh('git -C /repo apply %s' % patch)
         try:
@@ -98,7 +116,6 @@ def main():
                     break
         finally:
             sh('git -C /repo checkout -- .')
-            shutil.rmtree(os.path.join(VERIF, 'replays'), ignore_errors=True)
     else:
         out['confirmed'] = False
     print(json.dumps(out, indent=1))
